@@ -506,7 +506,7 @@ pub fn scenarios(prop: &str, thorough: bool) -> Vec<Scenario> {
                                 name: format!("RR/pool{pool}/clear={b1},{b2}/new={with_new}"),
                                 pool_threads: pool,
                                 columns: 1,
-                                preload: vec![it(100, "a"), it(101, "ab")],
+                                preload: vec![it(100, "a"), it(101, "zzz"), it(102, "ab"), it(103, "zz")],
                                 u,
                                 injectors: vec![(false, vec![IOp::Await(0), IOp::Push(it(3, "ab")), IOp::Push(it(4, "a"))])],
                                 slots: 1,
@@ -564,7 +564,7 @@ pub fn scenarios(prop: &str, thorough: bool) -> Vec<Scenario> {
                             name: format!("Bs/pool{pool}/p={p:?}/clear={b1}"),
                             pool_threads: pool,
                             columns: 1,
-                            preload: vec![it(100, "a"), it(101, "ab")],
+                            preload: vec![it(100, "a"), it(101, "zzz"), it(102, "ab"), it(103, "zz")],
                             u: vec![UOp::Reparse(0, p), UOp::Tick, UOp::Restart(b1), UOp::Extend(vec![it(20, "a"), it(21, "xa"), it(22, "ab")]), UOp::Tick, UOp::Drain(6)],
                             injectors: vec![(true, vec![IOp::Push(it(1, "a"))])],
                             slots: 0,
@@ -596,7 +596,7 @@ pub fn scenarios(prop: &str, thorough: bool) -> Vec<Scenario> {
                                 name: format!("B/pool{pool}/p={p:?}/clear={b1}/second={second}"),
                                 pool_threads: pool,
                                 columns: 1,
-                                preload: vec![it(100, "a"), it(101, "ab")],
+                                preload: vec![it(100, "a"), it(101, "zzz"), it(102, "ab"), it(103, "zz")],
                                 u,
                                 injectors: if thorough {
                                     vec![
@@ -682,7 +682,7 @@ pub fn scenarios(prop: &str, thorough: bool) -> Vec<Scenario> {
                         name: format!("Bs/C11t/pool{pool}/v{vi}"),
                         pool_threads: pool,
                         columns: 1,
-                        preload: vec![it(100, "a"), it(101, "ab")],
+                        preload: vec![it(100, "a"), it(101, "zzz"), it(102, "ab"), it(103, "zz")],
                         u,
                         injectors: vec![(true, vec![IOp::Push(it(1, "a")), IOp::Push(it(2, "xa")), IOp::DropHandle])],
                         slots: 0,
